@@ -100,6 +100,8 @@ static int ANIstart(void);
 /* private destroy routine */
 static int ANIdestroy(void);
 
+static int ANIcreate_ann_tree(int32 an_id, ann_type type);
+
 /*-----------------------------------------------------------------------------
  *                          Internal Routines
  *---------------------------------------------------------------------------*/
@@ -308,13 +310,11 @@ ANIaddentry(int32    an_id, /* IN: annotation interface id */
     if (BADFREC(file_rec))
         HGOTO_ERROR(DFE_ARGS, FAIL);
 
-    /* Check for empty annotation tree of 'type'? */
+    /* Annotation tree of 'type' not built yet?  Build it from the file, so that the
+       annotations already there stay visible next to the new one */
     if (file_rec->an_num[type] == -1) {
-        if ((file_rec->an_tree[type] = (TBBT_TREE *)tbbtdmake(ANIanncmp, sizeof(int32), 0)) == NULL) {
+        if (ANIcreate_ann_tree(an_id, type) == FAIL)
             HE_REPORT_GOTO("failed to create annotation tree", FAIL);
-        }
-
-        file_rec->an_num[type] = 0;
     }
 
     /* Which type of annotation file/data label or desc? */
